@@ -82,6 +82,15 @@ def fam_history(seed, n, all_statuses=True):
     ]):
         out.append({"id": "h-eintr%d" % j, "exit": {"k": "exited", "v": 7, "at": at}, "ops": ops, "drop": True,
                     "eintr_at": eat, "kill_latency": 2 * MS})
+    # the handle is used from another thread than the one that created it (a monitor thread, a Popen sent over a channel)
+    for j, (ops, at) in enumerate([
+        ([["poll"], ["poll"], ["wait_timeout", 3 * MS], ["pid"], ["wait"], ["exit_status"]], 20 * MS),
+        ([["wait_timeout", 50 * MS], ["poll"], ["wait"]], 10 * MS),
+        ([["poll"], ["kill"], ["wait"], ["poll"]], None),
+        ([["wait"], ["poll"], ["terminate"]], 5 * MS),
+    ]):
+        out.append({"id": "h-thread%d" % j, "exit": {"k": "exited", "v": 9, "at": at}, "ops": ops, "drop": True,
+                    "other_thread": True, "kill_latency": MS})
     # numbers that are no signal must be refused by the kernel as they are -- not reach the child as another signal
     for j, sig in enumerate([256, 265, 271, -241, 65536 + 9, 2 ** 31 - 1, -(2 ** 31)]):
         out.append({"id": "h-badsig%d" % j, "exit": {"k": "exited", "v": 3, "at": None},
